@@ -1050,6 +1050,4 @@ func tail(s []string, n int) []string {
 }
 
 // preconditionLost: the documented precondition of the chain (enough stake-eligible validators remain) was lost.
-func preconditionLost(msg string) bool {
-	return strings.Contains(msg, "failed to elect any validators") || strings.Contains(msg, "insufficient validators") || strings.Contains(msg, "couldn't elect validators")
-}
+func preconditionLost(msg string) bool { return chain.PreconditionLost(msg) }
